@@ -6,12 +6,15 @@ import (
 
 	"verif/harness/sim"
 	"verif/harness/storechk"
+
+	posTypes "github.com/pokt-network/posmint/x/pos/types"
 )
 
 // C14 — store queries return committed data, with proofs that verify against that height's app hash.
 type C14 struct {
 	committed map[int64]sim.Raw
 	hashes    map[int64][]byte
+	views     map[int64]*sim.View // decoded committed state of the latest height (for module queries)
 }
 
 func NewC14() *C14 { return &C14{committed: map[int64]sim.Raw{}, hashes: map[int64][]byte{}} }
@@ -33,6 +36,31 @@ func (m *C14) OnCall(e *sim.Env, c *sim.Call) {
 		}
 	case "query":
 		p := c.QReq.Path
+		if p == "/custom/pos/account_balance" && c.Panic == "" && c.ResQuery.Code == 0 && (c.QReq.Height == 0 || c.QReq.Height == e.H) && e.H >= 1 {
+			// a module query without a height (or at the latest one) answers from the last committed state, also while a
+			// block is being executed
+			var qp posTypes.QueryAccountBalanceParams
+			if raw, ok := m.committed[e.H]; ok && posTypes.ModuleCdc.UnmarshalJSON(c.QReq.Data, &qp) == nil {
+				if m.views == nil {
+					m.views = map[int64]*sim.View{}
+				}
+				v := m.views[e.H]
+				if v == nil {
+					v = e.A.Decode(raw)
+					m.views = map[int64]*sim.View{e.H: v} // keep only the latest
+				}
+				want := v.Bal(fmt.Sprintf("%x", []byte(qp.Address)))
+				got := strings.Trim(strings.TrimSpace(string(c.ResQuery.Value)), "\"")
+				e.Count("c14.custom_balance_queries_judged")
+				if e.InBlock {
+					e.Count("c14.custom_balance_queries_inside_block")
+				}
+				if got != want.String() {
+					e.Violate("C14", "custom-query-not-committed-state", fmt.Sprintf("%s for %x at latest height %d (in block: %v) returned %s, the committed balance is %v", p, []byte(qp.Address), e.H, e.InBlock, got, want), c)
+				}
+			}
+			return
+		}
 		if strings.HasPrefix(p, "/custom/") && c.Panic == "" && c.QReq.Height != 0 {
 			// a module query for an explicit height that is pruned or does not exist yet is refused: it is not answered
 			// from another height
